@@ -18,9 +18,10 @@ if only:
     ps = [p for p in ps if any("_%s/" % o in p for o in only)]
 with ThreadPoolExecutor(max_workers=6) as ex:
     for p, rules, inc in ex.map(run, ps):
-        prop = p.split("/")[2].split("_", 1)[1]
+        tag = p.split("/")[2].split("_", 1)[1]
+        prop = tag[:3]          # C12a -> C12
         if p.endswith("patch.diff"):
             own = [r for r in rules if r.startswith(prop)]
-            print("%-5s slip    %-8s viol=%s %s" % (prop, "CAUGHT" if own else ("other" if rules else "MISSED"), rules, ("inconclusive=%s" % inc) if inc else ""))
+            print("%-5s slip    %-8s viol=%s %s" % (tag, "CAUGHT" if own else ("other" if rules else "MISSED"), rules, ("inconclusive=%s" % inc) if inc else ""))
         else:
-            print("%-5s clean   %-8s viol=%s %s" % (prop, "silent" if not rules and not inc else "ALARM", rules, ("inconclusive=%s" % inc) if inc else ""))
+            print("%-5s clean   %-8s viol=%s %s" % (tag, "silent" if not rules and not inc else "ALARM", rules, ("inconclusive=%s" % inc) if inc else ""))
